@@ -244,3 +244,112 @@ func init() { Register("C05", "library", checkC05); Register("C05", "cli", check
 
 func TestC05Library(t *testing.T) { RunRandom(t, "C05", "library", genC05, checkC05) }
 func TestC05CLI(t *testing.T)     { RunRandom(t, "C05", "cli", genC05CLI, checkC05CLI) }
+
+// ---- documents obtained from Patch
+
+// PatchedCase: a' = Patch(A, A.Diff(X, PatchOpts)) is a document like any
+// other; it is then compared and diffed with B under Opts.
+type PatchedCase struct {
+	A         string `json:"a"`
+	X         string `json:"x"`
+	PatchOpts string `json:"patch_opts"`
+	B         string `json:"b"`
+	Opts      string `json:"opts"`
+}
+
+func patchedDoc(c PatchedCase) (func() jd.JsonNode, val.V, error) {
+	mk := func() jd.JsonNode {
+		d := jdx.NodeText(c.A).Diff(jdx.NodeText(c.X), jdx.Options(c.PatchOpts)...)
+		out := jdx.Patch(jdx.NodeText(c.A), d)
+		if !out.OK() {
+			return nil
+		}
+		return out.Node
+	}
+	n := mk()
+	if n == nil {
+		return nil, nil, fmt.Errorf("precondition: the diff applies (C01)")
+	}
+	v, err := val.Parse(n.Json())
+	if err != nil {
+		return nil, nil, err
+	}
+	return mk, v, nil
+}
+
+func checkC05Patched(c PatchedCase, r *rec.Rec) error {
+	mk, pv, err := patchedDoc(c)
+	if err != nil {
+		r.Class("skipped:" + err.Error())
+		return nil
+	}
+	bv, err := val.Parse(c.B)
+	if err != nil {
+		return fmt.Errorf("bad case: %v", err)
+	}
+	if containsMagic(pv, bv) {
+		r.Class("skipped:magic-number")
+		return nil
+	}
+	opts := jdx.Options(c.Opts)
+	equal := mk().Equals(jdx.NodeText(c.B), opts...)
+	var d jd.Diff
+	if msg, p := jdx.Guard(func() { d = mk().Diff(jdx.NodeText(c.B), opts...) }); p {
+		return rec.Violated("Diff panicked on a patched document: %s", msg)
+	}
+	if (len(d) == 0) != equal {
+		return rec.Violated("a' = Patch(%s, diff to %s under %s) = %s; under %s Equals(a', %s) = %v but a'.Diff(b) has %d hunks:\n%s", c.A, c.X, c.PatchOpts, val.JSON(pv), c.Opts, c.B, equal, len(d), d.Render())
+	}
+	equalBack := jdx.NodeText(c.B).Equals(mk(), opts...)
+	d2 := jdx.NodeText(c.B).Diff(mk(), opts...)
+	if (len(d2) == 0) != equalBack || equalBack != equal {
+		return rec.Violated("a' = %s (from Patch), b = %s under %s: Equals(a',b)=%v Equals(b,a')=%v, b.Diff(a') has %d hunks", val.JSON(pv), c.B, c.Opts, equal, equalBack, len(d2))
+	}
+	cls := []string{"opts=" + c.Opts, "patch-opts=" + c.PatchOpts}
+	if equal {
+		cls = append(cls, "equal")
+	} else {
+		cls = append(cls, "unequal")
+	}
+	r.Case(fmt.Sprintf("%v", c), c.A != c.X, cls...)
+	if c.A != c.X {
+		r.Sample(c)
+	}
+	return nil
+}
+
+func genPatchedCase(t *rapid.T) PatchedCase {
+	popts := gen.Pick(t, "patchOpts", []string{"list", "list", "set", "mset", "setkeys:id", "merge"})
+	pc := genPairCase(t, []string{popts}, func(p *gen.Profile) { p.VoidRoot = false; p.ArrayBias = 50 })
+	opts := gen.Pick(t, "opts", []string{"list", "set", "mset", "setkeys:id", "merge", "set+merge"})
+	if gen.Chance(t, "sameOpts", 40) {
+		opts = popts
+	}
+	xv := val.MustParse(pc.B)
+	var b val.V
+	switch gen.Int(t, "bKind", 0, 3) {
+	case 0:
+		b = val.Clone(xv)
+	case 1:
+		b = gen.Permute(t, xv, 60)
+	case 2:
+		if val.IsVoid(xv) {
+			b = gen.Doc(t, gen.Profile{})
+		} else {
+			b = gen.Edit(t, xv, profileFor(opts))
+		}
+	default:
+		b = val.MustParse(pc.A)
+	}
+	if jdx.IsMerge(opts) {
+		b = stripNulls(b)
+	}
+	if ks := jdx.SetKeysOf(opts); ks != nil && !val.IsVoid(b) {
+		b = gen.Keyify(b, ks)
+	}
+	return PatchedCase{A: pc.A, X: pc.B, PatchOpts: popts, B: val.JSON(b), Opts: opts}
+}
+
+func init() { Register("C05", "patched", checkC05Patched) }
+
+func TestC05Patched(t *testing.T) { RunRandom(t, "C05", "patched", genPatchedCase, checkC05Patched) }
